@@ -16,10 +16,15 @@ TRUSTED = ["Coq 8.16.1 kernel, vm_compute for the correspondence evaluation and 
            "NumPy"]
 ASSUMPTIONS = ["theorems are about exact real arithmetic; binary64 rounding is covered only by the tolerance of the "
                "correspondence check on sampled inputs whose classification is exact",
-               "a corner classified 'on' (|offset| <= 1e-8) is read as lying exactly on the plane (hypothesis H0 of "
-               "the geometric theorems), as the property text prescribes",
+               "the kernel snaps every per-vertex offset within 1e-8 of the plane to 0; theorems are stated both on the true "
+               "offsets (with a tolerance slack) and on the snapped ones (exact); no 'exactly on the plane' hypothesis is used",
+               "output dtypes and shapes (float64 / int64 / int64, (k,3) / (m,3) / (m,)) are validated by the correspondence "
+               "check and the oracle on every case (incl. float32 / float16 / integer vertex arrays and int32 faces), not proved: "
+               "the model carries no dtype",
                "negative (NumPy wrap-around) face entries are modelled by a separate layer (slice_faces_plane_z); the geometric "
-               "theorems are stated for non-negative entries, to which that layer reduces"]
+               "theorems are stated for non-negative entries, to which that layer reduces",
+               "coordinate scales above ~2^18 are not generated: there the binary64 rounding of a cut vertex can exceed the "
+               "1e-8 band (idempotence is an exact-arithmetic fact)"]
 CASE_IMPORTS = [("PW.model", "M_slicing")]
 
 
@@ -76,10 +81,22 @@ def gen_mesh_case(rng, tier, profile):
         kind, nv, nf = "empty_vertices", 0, 0
     elif u < p_empty_v + p_empty_f:
         kind, nf = "empty_faces", 0
-    shift = rng.randint(-3, 6) if tier != "thorough" else rng.randint(-6, 9)
+    # any scale: ordinary, around the 1e-8 band (2^-30..2^-8), whole mesh inside the band (2^-40..2^-31), large (up to 2^17:
+    # beyond that the rounding of a cut vertex is no longer small against the band)
+    sk = rng.random()
+    if sk < 0.6:
+        shift = rng.randint(-3, 6) if tier != "thorough" else rng.randint(-6, 9)
+    elif sk < 0.75:
+        shift = rng.randint(-30, -8)
+    elif sk < 0.87:
+        shift = rng.randint(-40, -31)
+    else:
+        shift = rng.randint(7, 17)
     scale = 2.0 ** shift
     on_frac = rng.choice([0.0, 0.3, 0.3, 0.3, 0.6])
     near = (plane_kind == "axis") and rng.random() < 0.35
+    # oblique planes: vertices strictly inside the band (offset k |n|^2 <= 5.6e-9), snapped to the plane by the kernel
+    near_oblique = (plane_kind == "dyadic") and rng.random() < 0.3
     vs = []
     has_near = False
     for _ in range(nv):
@@ -92,13 +109,21 @@ def gen_mesh_case(rng, tier, profile):
                 off = rng.choice([0.5e-8, -0.5e-8, 0.9e-8, -0.9e-8, 1.1e-8, -1.1e-8, 2e-8, -2e-8, 1e-9, -1e-9])
                 v[ax] = ref[ax] + off / abs(n[ax])
                 has_near = True
+            elif near_oblique and rng.random() < 0.5:
+                k = rng.choice([1.0, -1.0, 0.5, -0.5, 0.25]) * 2.0 ** -31
+                v = [v[j] + k * n[j] for j in range(3)]
+                has_near = True
         elif plane_kind == "float" and r < on_frac * 0.5:
             v = list(ref)  # the reference point itself is the only exactly-on point of a rounded normal
         else:
             v = [_grid(rng) for _ in range(3)]
         vs.append(v)
     if has_near:
-        scale = 1.0
+        scale, shift = 1.0, 0
+    # coincident vertices: distinct indices, equal coordinates
+    if nv >= 2 and rng.random() < 0.2:
+        for _ in range(rng.randint(1, 3)):
+            vs[rng.randrange(nv)] = list(vs[rng.randrange(nv)])
     vs = [[x * scale for x in v] for v in vs]
     ref = [x * scale for x in ref]
     if kind == "generic" and u < p_empty_v + p_empty_f + p_behind and nv:
@@ -148,7 +173,12 @@ def gen_mesh_case(rng, tier, profile):
     if kind == "generic":  # (neg_index / bad_index / empty / all_behind keep their own kind)
         kind = "near_tol" if has_near else ("float_normal" if plane_kind == "float" else
                                             ("on_plane" if on_frac else "generic"))
-    return {"kind": kind, "vertices": vs, "faces": fs, "ref": ref, "normal": n, "mask": mask,
+    # vertex arrays that are not float64 (values exactly representable in the chosen dtype)
+    vdtype = "float64"
+    if vs and not has_near and rng.random() < (0.06 if profile == "geom" else 0.2):
+        vdtype = rng.choice(["float32", "float32", "int64", "int32", "float16"] if abs(shift) <= 6 else ["float32"])
+        vs = np.array(vs, dtype=np.float64).astype(vdtype).astype(np.float64).tolist()
+    return {"kind": kind, "vdtype": vdtype, "vertices": vs, "faces": fs, "ref": ref, "normal": n, "mask": mask,
             "ret_face_mapping": rng.random() < (0.6 if profile == "geom" else 0.75),
             "int32": rng.random() < (0.1 if profile == "geom" else 0.3), "has_near": has_near,
             "inexact": plane_kind == "float"}
@@ -156,7 +186,7 @@ def gen_mesh_case(rng, tier, profile):
 
 # ---- running the implementation -------------------------------------------------------------------------------
 def arrays(c):
-    V = np.array(c["vertices"], dtype=np.float64).reshape(-1, 3)
+    V = np.array(c["vertices"], dtype=np.float64).reshape(-1, 3).astype(c.get("vdtype", "float64"))
     Fa = np.array(c["faces"], dtype=np.int32 if c.get("int32") else np.int64).reshape(-1, 3)
     ref = np.array(c["ref"], dtype=np.float64)
     n = np.array(c["normal"], dtype=np.float64)
@@ -295,7 +325,7 @@ def point_in_face(w, t, slack):
     """is w in the convex hull of the corners of t (relative slack)?  Exact rationals."""
     N = varea2(t)
     nn = dot(N, N)
-    mag = max([Fr(1)] + [abs(x) for p in t for x in p])
+    mag = max([abs(x) for p in t for x in p] + [abs(x) for x in w])  # no absolute floor: tiny meshes are judged too
     if nn > 0:
         # barycentric weights through sub-triangle areas projected on N
         ws = [dot(varea2([w, t[1], t[2]]), N) / nn, dot(varea2([t[0], w, t[2]]), N) / nn, dot(varea2([t[0], t[1], w]), N) / nn]
@@ -331,7 +361,7 @@ def expected_rule(signs, selected):
 
 
 def close_vec(a, b, rel, mag):
-    return all(abs(x - y) <= rel * max(Fr(1), mag) for x, y in zip(a, b))
+    return all(abs(x - y) <= rel * mag for x, y in zip(a, b))
 
 
 def geometry_failure(c, full, rel=Fr(1, 10 ** 9)):
@@ -352,7 +382,7 @@ def geometry_failure(c, full, rel=Fr(1, 10 ** 9)):
         return "an output face indexes a vertex that was not returned"
     d = [dot(n, sub(v, ref)) for v in V]
     nmag = max(abs(x) for x in n)
-    vmag = max([Fr(1)] + [abs(x) for v in V for x in v] + [abs(x) for x in ref])
+    vmag = max([Fr(0)] + [abs(x) for v in V for x in v] + [abs(x) for x in ref])  # no absolute floor
     # the kernel works on snapped distances: a corner inside the band is cut AT that corner, so the expected clipped face
     # (computed below from the snapped distances) is met to rounding also when corners sit inside the band
     loose = rel
